@@ -203,3 +203,112 @@ func init() {
 		Desc:  "three callers on one key, each with an enumerated style out of {Call, CallAsync, Start, CallAfter(5ms), StartAfter(5ms), non-resolving work, rate-limited}",
 		Heavy: true, Opts: vrt.Options{Delay: true}, Run: xProg, Check: exclusiveCheck})
 }
+
+// wProg: 3 callers with enumerated counts, plus a thread that calls Wait and Count concurrently.
+func wProg() {
+	var w Workers
+	var wg sync.WaitGroup
+	counts := []int{1 + vrt.Choose(3, 0), 1 + vrt.Choose(3, 0), 1 + vrt.Choose(3, 0)}
+	vrt.Log("counts", fmt.Sprint(counts))
+	for i, n := range counts {
+		wg.Add(1)
+		go func() {
+			defer wg.Done()
+			name := fmt.Sprintf("f%d", i)
+			vrt.Log("call", i, n)
+			r, err := w.Call(n, func() (interface{}, error) {
+				vrt.Log("start", i)
+				vrt.Point()
+				vrt.Log("end", i)
+				if i%2 == 1 {
+					return nil, fmt.Errorf("err-%s", name)
+				}
+				return name, nil
+			})
+			rs, es := outcomeStr(r, err)
+			vrt.Log("ret", i, rs, es)
+		}()
+	}
+	wg.Add(1)
+	go func() {
+		defer wg.Done()
+		vrt.Log("count-during", w.Count())
+	}()
+	wg.Wait()
+	vrt.Log("joined")
+	w.Wait()
+	vrt.Log("waited", w.Count())
+}
+
+// nProg: Notifier registry operations and publishes from concurrent threads. Every publish
+// carries a unique token, channels are buffered, so each publish's set of recipients can be read
+// off the channels afterwards and the history linearised against the registry model.
+func nProg(nThreads, opsPerThread int) func() {
+	return func() {
+		var n Notifier
+		chans := []chan int{make(chan int, 16), make(chan int, 16)}
+		keys := []string{"k1", "k2"}
+		n.Subscribe("k1", chans[0]) // one subscription exists from the start
+		prog := make([][]int, nThreads)
+		for t := range prog {
+			for k := 0; k < opsPerThread; k++ {
+				prog[t] = append(prog[t], vrt.Choose(10, 0))
+			}
+		}
+		vrt.Log("program", fmt.Sprint(prog))
+		var wg sync.WaitGroup
+		for t := range prog {
+			wg.Add(1)
+			go func() {
+				defer wg.Done()
+				for k, op := range prog[t] {
+					id := int(vrt.Stamp())
+					if op >= 8 { // publish to k1 / k2
+						key, token := op-8, 100*(t+1)+k
+						vrt.Log("c:Pub", id, -1, key, token)
+						n.Publish(keys[key], token)
+						vrt.Log("r:Pub", id)
+						continue
+					}
+					sub, key, ch := op < 4, (op/2)%2, op%2
+					kind := "Unsub"
+					if sub {
+						kind = "Sub"
+					}
+					vrt.Log("c:"+kind, id, -1, key, ch)
+					func() {
+						defer func() {
+							vrt.Log("r:"+kind, id, recover() != nil)
+						}()
+						if sub {
+							n.Subscribe(keys[key], chans[ch])
+						} else {
+							n.Unsubscribe(keys[key], chans[ch])
+						}
+					}()
+				}
+			}()
+		}
+		wg.Wait()
+		for ci, c := range chans {
+			for len(c) > 0 {
+				vrt.Log("delivered", ci, <-c)
+			}
+		}
+	}
+}
+
+func init() {
+	vrt.Register(&vrt.Scenario{Name: "W-prog", Props: []string{"C14", "C11:race", "C12:goroutine-leak"}, Quick: 3, Thorough: 4, Heavy: true,
+		Desc: "three concurrent Workers.Call with every combination of counts from {1,2,3}, a concurrent Count, then Wait",
+		Opts: vrt.Options{Delay: true}, Run: wProg, Check: workersCheck})
+	for _, p := range []struct {
+		name         string
+		threads, ops int
+		q, t         int
+	}{{"N-prog-2x2", 2, 2, 1, 2}, {"N-prog-3x1", 3, 1, 2, 3}} {
+		vrt.Register(&vrt.Scenario{Name: p.name, Props: []string{"C15", "C11:race", "C12:goroutine-leak"}, Quick: p.q, Thorough: p.t, Heavy: true,
+			Desc: fmt.Sprintf("every program of %d threads x %d operations over {Subscribe, Unsubscribe (2 keys x 2 channels), Publish(k1), Publish(k2)} on one Notifier, linearised against the registry model", p.threads, p.ops),
+			Opts: vrt.Options{Delay: true}, Run: nProg(p.threads, p.ops), Check: notifierProgCheck})
+	}
+}
